@@ -173,6 +173,9 @@ pub struct WriteCase {
     pub double_send: bool,
     /// the last framed write is polled once only (a send future that was dropped: timeout, select!) before the stream is finished
     pub early_finish: bool,
+    /// a bidirectional stream is split into its halves after the last write (which may still be pending, see `early_finish`)
+    /// and finished through the send half: the halves are the same stream, the unfinished buffer goes with the send half
+    pub split_before_finish: bool,
 }
 
 fn hfault(m: impl Into<String>) -> Failure {
@@ -232,6 +235,7 @@ async fn write_case(fx: &Fixture, c: &WriteCase) -> Result<Result<(bool, bool, b
     enum S {
         Bi(h3_quinn::BidiStream<Bytes>),
         Uni(h3_quinn::SendStream<Bytes>),
+        Halves(h3_quinn::SendStream<Bytes>, #[allow(dead_code)] h3_quinn::RecvStream),
     }
     let mut s = if c.bidi {
         S::Bi(std::future::poll_fn(|cx| <h3_quinn::Connection as OpenStreams<Bytes>>::poll_open_bidi(&mut conn, cx)).await.map_err(|e| hfault(format!("open_bidi: {e}")))?)
@@ -243,6 +247,7 @@ async fn write_case(fx: &Fixture, c: &WriteCase) -> Result<Result<(bool, bool, b
             match $s {
                 S::Bi($x) => $e,
                 S::Uni($x) => $e,
+                S::Halves($x, _) => $e,
             }
         };
     }
@@ -299,6 +304,15 @@ async fn write_case(fx: &Fixture, c: &WriteCase) -> Result<Result<(bool, bool, b
                 }
             }
         }
+        if c.split_before_finish {
+            s = match s {
+                S::Bi(b) => {
+                    let (tx, rx) = quic::BidiStream::split(b);
+                    S::Halves(tx, rx)
+                }
+                other => other,
+            };
+        }
         // the buffer was handed over: it reaches the peer complete, whether finishing flushes it first or refuses until the
         // application has driven the write to its end (both are accepted; a clean end of the stream inside it is not - the
         // monitor on the peer's side decides)
@@ -354,7 +368,7 @@ fn block<T>(f: impl std::future::Future<Output = T>, fx: &Fixture) -> Result<T, 
 }
 
 fn case_json_write(c: &WriteCase) -> Value {
-    json!({"kind": "write", "windows": [c.windows.stream_rx, c.windows.conn_rx, c.windows.send], "bidi": c.bidi, "double_send": c.double_send, "early_finish": c.early_finish, "frames": c.frames.iter().map(|f| format!("{f:?}")).collect::<Vec<_>>()})
+    json!({"kind": "write", "windows": [c.windows.stream_rx, c.windows.conn_rx, c.windows.send], "bidi": c.bidi, "double_send": c.double_send, "early_finish": c.early_finish, "split_before_finish": c.split_before_finish, "frames": c.frames.iter().map(|f| format!("{f:?}")).collect::<Vec<_>>()})
 }
 
 fn run_write(c: &WriteCase, ctx: &mut Ctx) -> Verdict {
@@ -367,6 +381,9 @@ fn run_write(c: &WriteCase, ctx: &mut Ctx) -> Verdict {
         Ok((refused, raw, fwp)) => {
             if fwp {
                 ctx.class("finish_with_write_pending");
+                if c.split_before_finish && c.bidi {
+                    ctx.class("split_with_write_pending");
+                }
             }
             if refused {
                 ctx.class("second_send_refused");
@@ -1126,12 +1143,16 @@ fn exhaustive(ctx: &mut Ctx, shard: usize, nshards: usize) -> Verdict {
                 continue;
             }
             let frames = vec![FrameSpec::Headers(300), FrameSpec::Data(0), FrameSpec::Data(if wi == 0 { 300 } else { 70_000 }), FrameSpec::Grease, FrameSpec::Goaway(8), FrameSpec::TypedData(0x21, 10), FrameSpec::Raw(if wi == 0 { 50 } else { 5000 })];
-            run_write(&WriteCase { windows: w, bidi, frames: frames.clone(), double_send: wi % 2 == 0, early_finish: false }, ctx)?;
+            run_write(&WriteCase { windows: w, bidi, frames: frames.clone(), double_send: wi % 2 == 0, early_finish: false, split_before_finish: false }, ctx)?;
             // the same without the trailing raw write, the last frame polled once only before the stream is finished
             let mut frames = frames;
             frames.pop();
             frames.push(FrameSpec::Data(if wi == 0 { 300 } else { 70_000 }));
-            run_write(&WriteCase { windows: w, bidi, frames, double_send: false, early_finish: true }, ctx)?;
+            run_write(&WriteCase { windows: w, bidi, frames: frames.clone(), double_send: false, early_finish: true, split_before_finish: false }, ctx)?;
+            if bidi {
+                // the same again, the stream split into its halves while that write is still unfinished
+                run_write(&WriteCase { windows: w, bidi, frames, double_send: false, early_finish: true, split_before_finish: true }, ctx)?;
+            }
         }
     }
     if shard == 0 {
@@ -1175,7 +1196,7 @@ fn gen_write(t: &mut Tape) -> WriteCase {
             }
         })
         .collect();
-    WriteCase { windows: Windows { stream_rx, conn_rx, send }, bidi: t.bool(), frames, double_send: t.bool(), early_finish: t.chance(1, 3) }
+    WriteCase { windows: Windows { stream_rx, conn_rx, send }, bidi: t.bool(), frames, double_send: t.bool(), early_finish: t.chance(1, 3), split_before_finish: t.chance(1, 3) }
 }
 
 fn run_tape(tape: &[u16], ctx: &mut Ctx) -> Verdict {
@@ -1243,7 +1264,7 @@ fn run_direct(d: &Value, ctx: &mut Ctx) -> Verdict {
                         .collect()
                 })
                 .unwrap_or_default();
-            run_write(&WriteCase { windows: Windows { stream_rx: w[0].as_u64().unwrap_or(1 << 20), conn_rx: w[1].as_u64().unwrap_or(1 << 20), send: w[2].as_u64().unwrap_or(1 << 20) }, bidi: d["bidi"].as_bool().unwrap_or(true), frames, double_send: d["double_send"].as_bool().unwrap_or(false), early_finish: d["early_finish"].as_bool().unwrap_or(false) }, ctx)
+            run_write(&WriteCase { windows: Windows { stream_rx: w[0].as_u64().unwrap_or(1 << 20), conn_rx: w[1].as_u64().unwrap_or(1 << 20), send: w[2].as_u64().unwrap_or(1 << 20) }, bidi: d["bidi"].as_bool().unwrap_or(true), frames, double_send: d["double_send"].as_bool().unwrap_or(false), early_finish: d["early_finish"].as_bool().unwrap_or(false), split_before_finish: d["split_before_finish"].as_bool().unwrap_or(false) }, ctx)
         }
         _ => Err(Failure::fault("unknown direct case")),
     }
